@@ -16,7 +16,7 @@ from vlib import elem, family, harness, prove, replay, runner, selftest, symarra
 from vlib.desc import expand, shape
 
 PROP = "C09"
-FAMS = {"id": 60, "elementwise": 60, "reduce": 50, "dot": 30, "get_at": 50, "preserve": 40, "argfind": 30, "update": 120}
+FAMS = {"id": 80, "elementwise": 80, "reduce": 80, "dot": 40, "get_at": 60, "preserve": 160, "argfind": 40, "update": 120}
 THOROUGH_MULT = 10
 LAYOUTS = ["C", "T", "sliced", "broadcast", "readonly"]
 
